@@ -334,7 +334,24 @@ def r4_split(ctx):
         ok = ast.unparse(st_len[0].value) == new_len and g.dominates(g.node_of(st_len[0]), cn) and \
             ast.unparse(kwarg(ctor[0], 'params')) == f'{fb}.params.asdict()' and ast.unparse(kwarg(ctor[0], 'type_variety')) == f'{fb}.type_variety'
         lp = enclosing(ctor[0], ast.For)
-        ok = ok and lp is not None and f'range({n_sp})' in ast.unparse(lp.iter)
+        sdefs = local_defs(sf.node)
+
+        def n_long(e, depth=0):
+            """e yields exactly n_spans items: range(n_spans), a comprehension over such a thing, zip / enumerate of such things"""
+            e = resolved(sdefs, e)
+            if depth > 4:
+                return False
+            if isinstance(e, ast.Call) and isinstance(e.func, ast.Name):
+                if e.func.id == 'range':
+                    return len(e.args) == 1 and ast.unparse(e.args[0]) == n_sp
+                if e.func.id == 'zip':
+                    return bool(e.args) and all(n_long(a, depth + 1) for a in e.args)
+                if e.func.id in ('enumerate', 'list', 'tuple', 'reversed'):
+                    return bool(e.args) and n_long(e.args[0], depth + 1)
+            if isinstance(e, (ast.ListComp, ast.GeneratorExp)):
+                return len(e.generators) == 1 and not e.generators[0].ifs and n_long(e.generators[0].iter, depth + 1)
+            return False
+        ok = ok and lp is not None and n_long(lp.iter)
         uid = kwarg(ctor[0], 'uid')
         lvars = {n.id for n in ast.walk(lp.target) if isinstance(n, ast.Name)} if lp is not None else set()
         ok = ok and isinstance(uid, ast.JoinedStr) and bool(lvars & names_in(uid)) and f'{fb}.uid' in ast.unparse(uid)
